@@ -43,6 +43,7 @@ class Path(object):
         self.notes = []
         self.regions = []        # known-finding regions: (finding_id, z3 bool)
         self.unknown_branches = 0
+        self.overapprox = []     # reasons: callee models that over-approximate
 
     # -- symbols --------------------------------------------------------------------------
     def _fresh_name(self, name):
@@ -190,6 +191,9 @@ class Path(object):
     def end(self, why="cut"):
         raise PathAbort(why)
 
+    def note_overapprox(self, why):
+        self.overapprox.append(why)
+
 
 class PendingCheck(object):
     def __init__(self, label, cond, pc, vars_, choices, regions, detail, trace):
@@ -270,6 +274,9 @@ class ConcreteCtx(object):
 
     def note(self, s):
         self.notes.append(s)
+
+    def note_overapprox(self, why):
+        pass
 
     def end(self, why="cut"):
         raise PathAbort(why)
